@@ -170,7 +170,7 @@ impl Property for P {
         mix.esc_tricky = 2;
         let normal = (gen::token_text(mix, tier.max_tokens()), gen::optspec(og.clone()))
             .prop_map(|(text, spec)| Case { text, spec });
-        let scaled = (gen::scaled_text_and_width(mix, 1200), gen::optspec(og)).prop_map(
+        let scaled = (gen::scaled_text_and_width(mix, 4000), gen::optspec(og)).prop_map(
             |((text, w), mut spec)| {
                 spec.width = w;
                 Case { text, spec }
